@@ -116,7 +116,7 @@ class SymSeq(Model):
         if not self.tail:
             return self.core_at(I, idx)
         idx = I.to_num(idx)
-        if idx.depends_on(alg._BOUND):
+        if alg.has_bound(idx):
             return self.core_at(I, idx)
         d = idx - self.core_len
         if d.is_const():
@@ -184,19 +184,45 @@ class SymSeq(Model):
 
         outer = self
 
-        def on(value):
+        def keep(value):
+            """(included?, frame) - the filter must be decided by the element's facts (no fork)"""
             sub = Frame(fr.module, fr.func, fr.cls)
             sub.vars = dict(fr.vars)
             sub.self_obj = fr.self_obj
             I.assign_target(gen.target, value, sub)
             for cond in gen.ifs:
                 n = len(I.P.trail)
-                if not I.P.branch(I.truth(I.eval(cond, sub))) or len(I.P.trail) != n:
+                r = I.P.branch(I.truth(I.eval(cond, sub)))
+                if len(I.P.trail) != n:
                     raise Unsupported("comprehension filter over a symbolic sequence that is not decided by the element facts")
+                if not r:
+                    return False, sub
+            return True, sub
+
+        def on(value):
+            ok, sub = keep(value)
+            if not ok:
+                raise Unsupported("comprehension filter is not uniform over the core of a symbolic sequence")
             return I.eval(node.elt, sub)
 
-        return SymSeq("[%s for %s]" % (ast.unparse(node.elt)[:40], self.key), self.core_len, lambda idx: on(outer.core_at(I, idx)),
-                      tail=[on(x) for x in self.tail])
+        core_len = self.core_len
+        if gen.ifs:
+            probe = alg.sym(I.P.fresh_name("probe@" + str(self.key)), "Int")
+            if I.P.feasible(z3.And(I.P.z(probe) >= 0, I.P.z(probe) < I.P.z(self.core_len))):
+                I.P.solver.push()
+                I.P.solver.add(z3.And(I.P.z(probe) >= 0, I.P.z(probe) < I.P.z(self.core_len)))
+                try:
+                    ok, _ = keep(outer.core_at(I, probe))
+                finally:
+                    I.P.solver.pop()
+                if not ok:
+                    core_len = Num.const(0)  # the filter rejects every core element
+        tail = []
+        for x in self.tail:
+            ok, sub = keep(x)
+            if ok:
+                tail.append(I.eval(node.elt, sub))
+        return SymSeq("[%s for %s]" % (ast.unparse(node.elt)[:40], self.key), core_len, lambda idx: on(outer.core_at(I, idx)), tail=tail)
 
     def binop(self, I, op, other, swapped):
         if isinstance(other, SymSeq):
@@ -260,8 +286,8 @@ class SymSeq(Model):
 
 
 def seq_sum(I, seq):
-    i = alg.bound_index()
-    total = alg.bigsum(str(seq.key), seq.core_len, I.to_num(seq.core_at(I, i)))
+    i = alg.fresh_bound()
+    total = alg.bigsum(str(seq.key), seq.core_len, I.to_num(seq.core_at(I, i)), bound=i)
     for x in seq.tail:
         total = total + I.to_num(x)
     return _num_or_int(total)
@@ -274,10 +300,23 @@ def summarise_loop(I, seq, node, fr):
     the element, stores that are not accumulations) is outside the subset -> Unsupported."""
     from pyvc.interp import _Break, _Continue
 
-    i = alg.bound_index()
+    i = alg.fresh_bound()
     before = dict(fr.vars)
     lists = {k: (v, len(v)) for k, v in before.items() if isinstance(v, list)}
-    tname = node.target.id if isinstance(node.target, ast.Name) else None
+    zl = I.P.z(seq.core_len)
+    if not I.P.branch(SBool(zl > 0)):
+        # empty core: only the explicitly appended elements are iterated
+        for x in seq.tail:
+            I.assign_target(node.target, x, fr)
+            try:
+                I.exec_block(node.body, fr)
+            except _Continue:
+                continue
+            except _Break:
+                break
+        return
+    # the generic element's index is arbitrary in range
+    I.P.assume(z3.And(I.P.z(i) >= 0, I.P.z(i) < zl))
     I.assign_target(node.target, seq.core_at(I, i), fr)
     trail_before = len(I.P.trail)
     try:
@@ -302,7 +341,7 @@ def summarise_loop(I, seq, node, fr):
             del v[n0:]
 
             def elem(idx, captured=expr):
-                if seq.facts is not None and not (isinstance(idx, Num) and idx.depends_on(alg._BOUND)):
+                if seq.facts is not None and not (isinstance(idx, Num) and alg.has_bound(idx)):
                     seq.core_at(I, idx)  # for its side effect: the source element's facts hold at this index
                 return _subst_index(captured, i, idx)
 
@@ -314,7 +353,7 @@ def summarise_loop(I, seq, node, fr):
             delta = I.to_num(v) - I.to_num(old)
             if delta.is_zero():
                 continue
-            fr.vars[k] = _num_or_int(I.to_num(old) + alg.bigsum(str(seq.key), seq.core_len, delta))
+            fr.vars[k] = _num_or_int(I.to_num(old) + alg.bigsum(str(seq.key), seq.core_len, delta, bound=i))
             continue
         if k not in before:
             # loop-local temporary: dropped (a later read fails as an unresolved name rather than seeing a stale value)
@@ -733,6 +772,12 @@ def np_max(I, x, axis=None, keepdims=False):
     if isinstance(x, SymSeq):
         # the maximum of a non-empty sequence: some real M with M >= every element (only that is used)
         I.P.check("max-nonempty[%s]" % I.site(None), I.P.z(x.length) > 0, "np.max of an empty array raises ValueError")
+        # the maximum is a function of the sequence: it depends on whatever outer bound indices the elements mention
+        probe = alg.fresh_bound()
+        v = x.core_at(I, probe)
+        outer = sorted((a for a in (v.all_atoms_free() if isinstance(v, Num) else []) if alg.is_bound_atom(a) and a != list(probe.atoms())[0]), key=lambda a: a.key)
+        if outer:
+            return alg.raw_app(I.P.fresh_name("max[%s]" % x.key), *[Num.of_atom(a) for a in outer])
         return alg.sym(I.P.fresh_name("max[%s]" % x.key))
     raise Unsupported("np.max of %r" % type(x).__name__)
 
@@ -776,7 +821,8 @@ BUILTINS = {n: PyBuiltin(n, f) for n, f in {
     "tuple": lambda I, x=(): tuple(I.iterate(x)), "dict": lambda I, x=None, **k: dict(x or {}, **k),
     "set": lambda I, x=(): _mkset(I, x), "frozenset": lambda I, x=(): _mkset(I, x),
     "str": lambda I, x="": x if isinstance(x, str) else "<str>", "reversed": lambda I, x: list(reversed(I.iterate(x))),
-    "map": lambda I, f, *xs: [I.call(f, list(a), {}) for a in zip(*[I.iterate(x) for x in xs])],
+    "map": lambda I, f, *xs: (xs[0].map(I, "map(%s)" % xs[0].key, lambda v: I.call(f, [v], {})) if len(xs) == 1 and isinstance(xs[0], SymSeq)
+                              else [I.call(f, list(a), {}) for a in zip(*[I.iterate(x) for x in xs])]),
     "id": lambda I, x: id(x), "bool": lambda I, x=False: I.truth(x), "repr": lambda I, x: "<repr>",
     "callable": lambda I, x: True, "Exception": lambda I, *a: ("Exception",) + a,
 }.items()}
